@@ -196,10 +196,14 @@ func (node *harness) run(ctx context.Context, sender tracing.ISenderHandle) {
 				go func(bctx context.Context) {
 					select {
 					case rsp := <-in:
-						out <- rsp
+						// the activation is over before its token goes on: once the
+						// answer has been handed over the token may come back (retry,
+						// loop) and activate the activity again, and a late reset
+						// would switch the new activation's boundary events off
 						verifhook.Point("act.relay")
 						atomic.StoreInt32(&node.active, 0)
 						node.tracer.Send(ActiveBoundaryTrace{Start: false, Node: node.activity.Element()})
+						out <- rsp
 					case <-bctx.Done():
 						return
 					}
